@@ -418,6 +418,13 @@ pub fn gen_case(r: &mut Rng, out: &mut String) {
     if r.chance(1, 40) {
         all.clear(); // the empty bitmap
     }
+    if r.chance(1, 6) {
+        // a set of the shared catalogue (gen/zoo.rs) instead
+        let (t, _) = super::zoo::zoo_target(r);
+        if super::zoo::card(&t) <= 140000 {
+            all = super::c04::elems(&t);
+        }
+    }
     emit_build(out, "b0", &all);
     writeln!(out, "dump b0").unwrap();
 
